@@ -37,7 +37,9 @@ def gen_case(rng, tier, wrap=False):
             r = [d, o, c, a]
             if zero_prices and rng.random() < 0.25:
                 # a zero or negative quote is a value like any other (only an empty cell is a missing one)
-                if adjust:
+                if adjust and rng.random() < 0.5:
+                    r[2], r[3] = 0.0, 0.0                       # a halted bar: raw close and adjusted close are both zero
+                elif adjust:
                     r[1] = rng.choice([0.0, -1.0])              # (an adjusted open is open x adj/close: keep the ratio defined)
                 else:
                     r[rng.choice([1, 2])] = rng.choice([0.0, -1.0, -0.5])
@@ -69,6 +71,10 @@ def gen_case(rng, tier, wrap=False):
         # instants with a sub-second part: the answer is that of the whole second they lie in (boundary - 1 ms is still before it)
         c['subsec'] = [(rng.choice([999999999, 999999000, 999000000, 600000000, 400000000, 1, 500000000]) if rng.random() < 0.3 else 0)
                        for _ in queries]
+    if rng.random() < 0.3:
+        c['split_day'] = rng.choice(all_days)
+    if rng.random() < 0.25:
+        c['resource'] = True
     if rng.random() < 0.5:
         c['cut_day'] = rng.choice(all_days)
     if rng.random() < 0.3:
@@ -88,7 +94,8 @@ def spec_price(rows, adjust, t):
     obs = []
     for d, o, c, a in sorted(rows, key=lambda r: r[0]):
         if adjust:
-            oo = None if (o is None or c is None or a is None) else Fraction(a) / Fraction(c) * Fraction(o)
+            # (a halted bar with close = adjusted close = 0 has no adjustment ratio, 0/0: its adjusted open is missing)
+            oo = None if (o is None or c is None or a is None or (c == 0 and a == 0)) else Fraction(a) / Fraction(c) * Fraction(o)
             cc = None if a is None else Fraction(a)
         else:
             oo = None if o is None else Fraction(o)
@@ -123,8 +130,12 @@ class C06(Prop):
         cases = []
         for a, t in c['queries']:
             pass
-        rows = dict((a, [[int(r[0])] + [([] if (v is None or v == 'nan') else [Fraction(v)]) for v in r[1:]] for r in impl['loaded'][a]])
-                    for a in c['assets'])
+        def enc(r):
+            cells = [([] if (v is None or v == 'nan') else [Fraction(v)]) for v in r[1:]]
+            if c['adjust'] and cells[1] == [Fraction(0)] and cells[2] == [Fraction(0)]:
+                cells[0] = []          # 0/0: no adjustment ratio, the adjusted open is missing (the model's rationals would say 0)
+            return [int(r[0])] + cells
+        rows = dict((a, [enc(r) for r in impl['loaded'][a]]) for a in c['assets'])
         per_asset = []
         for a in sorted(c['assets']):
             ts = [int(t) for (b, t) in c['queries'] if b == a]
@@ -175,6 +186,17 @@ class C06(Prop):
             for q, a0, a1 in zip(c['queries'], impl['answers'], impl['answers_univ']):
                 if a0 != a1:
                     j.failures.append('query %s: a data handler built with universe %s answers %s, without a universe %s' % (q, c['handler_universe'], a1, a0))
+                    break
+        if 'answers_two_sources' in impl and not c.get('subsec'):
+            for q, a0, a1 in zip(c['queries'], impl['answers'], impl['answers_two_sources']):
+                if a0[2:6] != a1:
+                    j.failures.append('query %s: a handler with a recent-bars-only source listed before the full history answers %s, the full history alone %s' % (q, a1, a0[2:6]))
+                    break
+        if 'answers_resourced' in impl:
+            for q, a0, a1 in zip(c['queries'], *impl['answers_resourced']):
+                want = [('nan' if x == 'nan' else x * 2.0) for x in a0]
+                if a1 != want:
+                    j.failures.append('query %s: a handler whose data_sources were replaced by files with every figure doubled answers %s, expected %s' % (q, a1, want))
                     break
         if 'answers_shared_dir' in impl:
             for q, a0, a1 in zip(c['queries'], impl['answers'], impl['answers_shared_dir']):
